@@ -285,6 +285,50 @@ func ruleErrChk(c *Ctx, r *RuleResult, fnName, sinkParam string) {
 	if n := fn.Signature.Results().Len(); n == 0 || !types.Identical(fn.Signature.Results().At(n-1).Type(), errType) {
 		failf("%s does not return an error", fnName)
 	}
+	// "sticky error" wrappers: a local struct that holds the sink, whose Write method forwards to it
+	// and records the error in a field; LIB then returns that field at the end
+	type sticky struct {
+		errField string
+		ok       bool
+		why      string
+	}
+	stickies := map[ssa.Value]*sticky{}
+	for _, ref := range *sink.Referrers() {
+		mi, isMI := ref.(*ssa.MakeInterface)
+		var refs []ssa.Instruction
+		if isMI {
+			refs = *mi.Referrers()
+		} else {
+			refs = []ssa.Instruction{ref}
+		}
+		for _, rr := range refs {
+			st, ok := rr.(*ssa.Store)
+			if !ok {
+				continue
+			}
+			fa, ok := st.Addr.(*ssa.FieldAddr)
+			if !ok {
+				continue
+			}
+			al, ok := fa.X.(*ssa.Alloc)
+			if !ok {
+				continue
+			}
+			stT := al.Type().Underlying().(*types.Pointer).Elem()
+			wfield := stT.Underlying().(*types.Struct).Field(fa.Field).Name()
+			sk := analyseSticky(c, al.Type(), wfield)
+			if sk.errField == "" {
+				r.undecided("%s stores %s into %s but that type is not a recognisable error-recording writer (%s)", fnName, sinkParam, typeShort(stT), sk.why)
+				continue
+			}
+			stickies[al] = &sticky{errField: sk.errField, ok: sk.ok, why: sk.why}
+			r.inst("%s: error-recording wrapper %s around %s (errors kept in field %s)", fnName, typeShort(stT), sinkParam, sk.errField)
+			r.oblig(sk.ok)
+			if !sk.ok {
+				r.find(fnName+":"+typeShort(stT)+".Write loses an earlier error", c.instrPos(st), "%s writes through %s, whose Write %s: a transient failure followed by a successful write is reported as success", fnName, typeShort(stT), sk.why)
+			}
+		}
+	}
 	wrappers := map[ssa.Value]string{}
 	for changed := true; changed; {
 		changed = false
@@ -301,7 +345,8 @@ func ruleErrChk(c *Ctx, r *RuleResult, fnName, sinkParam string) {
 					if why, ok := bufferingWrappers[f.String()]; ok && len(call.Call.Args) > 0 {
 						a0 := stripIface(call.Call.Args[0])
 						_, onWrapper := wrappers[a0]
-						if a0 == sink || onWrapper {
+						_, onSticky := stickies[a0]
+						if a0 == sink || onWrapper || onSticky {
 							wrappers[call] = why
 							changed = true
 							r.inst("%s: wrapper construction %s around %s", fnName, f.String(), valName(a0))
@@ -381,6 +426,24 @@ func ruleErrChk(c *Ctx, r *RuleResult, fnName, sinkParam string) {
 				operands = append(operands, call.Call.Value)
 			}
 			operands = append(operands, call.Call.Args...)
+			recorded := false
+			for _, a := range operands {
+				if _, ok := stickies[stripIface(a)]; ok {
+					recorded = true
+				}
+				// a buffering wrapper built (transitively) on a sticky wrapper
+				if wv, ok := stripIface(a).(*ssa.Call); ok {
+					if _, isW := wrappers[wv]; isW && len(wv.Call.Args) > 0 {
+						if _, ok := stickies[stripIface(wv.Call.Args[0])]; ok {
+							recorded = true
+						}
+					}
+				}
+			}
+			if recorded {
+				r.inst("%s: recorded %s (error kept by the wrapper)", fnName, instrDesc(c, call))
+				continue
+			}
 			for i, a := range operands {
 				v := stripIface(a)
 				if v == sink {
@@ -431,7 +494,55 @@ func ruleErrChk(c *Ctx, r *RuleResult, fnName, sinkParam string) {
 			}
 		}
 	}
-	if n == 0 && len(wrappers) == 0 {
+	for al, sk := range stickies {
+		alloc := al.(*ssa.Alloc)
+		reach := reachableBlocks(alloc.Block(), nil)
+		okRet := true
+		for b := range reach {
+			ret, isRet := b.Instrs[len(b.Instrs)-1].(*ssa.Return)
+			if !isRet {
+				continue
+			}
+			rv := ret.Results[len(ret.Results)-1]
+			fromField := false
+			var chase func(v ssa.Value, depth int) bool
+			chase = func(v ssa.Value, depth int) bool {
+				if depth > 3 {
+					return false
+				}
+				switch x := v.(type) {
+				case *ssa.UnOp:
+					if fa, ok := x.X.(*ssa.FieldAddr); ok && x.Op == token.MUL && fa.X == ssa.Value(alloc) {
+						stT := alloc.Type().Underlying().(*types.Pointer).Elem().Underlying().(*types.Struct)
+						return stT.Field(fa.Field).Name() == sk.errField
+					}
+					if inner, ok := x.X.(*ssa.Alloc); ok && x.Op == token.MUL { // spilled named result
+						for _, ref := range *inner.Referrers() {
+							if st, ok := ref.(*ssa.Store); ok && st.Addr == ssa.Value(inner) && chase(st.Val, depth+1) {
+								return true
+							}
+						}
+					}
+				case *ssa.Phi:
+					for _, e := range x.Edges {
+						if !chase(e, depth+1) {
+							return false
+						}
+					}
+					return len(x.Edges) > 0
+				}
+				return false
+			}
+			fromField = chase(rv, 0)
+			if !fromField {
+				okRet = false
+				r.find(fnName+":return ignores the recorded error", c.instrPos(ret), "%s returns %s after writing through the error-recording wrapper instead of the error it recorded", fnName, valName(rv))
+			}
+		}
+		r.inst("%s: every return after the wrapper is built hands back its recorded error", fnName)
+		r.oblig(okRet)
+	}
+	if n == 0 && len(wrappers) == 0 && len(stickies) == 0 {
 		r.undecided("%s: no direct or flush write to %s found", fnName, sinkParam)
 	}
 	// the sink must not escape to module functions or be stored
@@ -439,6 +550,11 @@ func ruleErrChk(c *Ctx, r *RuleResult, fnName, sinkParam string) {
 		switch x := ref.(type) {
 		case *ssa.Call, *ssa.DebugRef, *ssa.MakeInterface, *ssa.ChangeInterface:
 		case *ssa.Store:
+			if fa, ok := x.Addr.(*ssa.FieldAddr); ok {
+				if _, isSticky := stickies[fa.X]; isSticky {
+					continue
+				}
+			}
 			r.undecided("%s stores %s at %s; writes through the copy are not tracked", fnName, sinkParam, c.instrPos(x))
 		}
 	}
@@ -457,7 +573,7 @@ func init() {
 		},
 		controls: func(ctl *Ctx) []*RuleResult {
 			var out []*RuleResult
-			for _, f := range []string{"errctl.BadFlushDropped", "errctl.BadErrSwallowed", "errctl.BadCheckedLate", "errctl.BadDeferredFlush", "errctl.BadNeverFlushed"} {
+			for _, f := range []string{"errctl.BadFlushDropped", "errctl.BadErrSwallowed", "errctl.BadCheckedLate", "errctl.BadDeferredFlush", "errctl.BadNeverFlushed", "errctl.BadStickyWriter", "errctl.BadStickyIgnored"} {
 				e := &RuleResult{Rule: "ERRCHK"}
 				ruleErrChk(ctl, e, f, "w")
 				out = append(out, e)
@@ -465,6 +581,7 @@ func init() {
 			g := &RuleResult{Rule: "ERRCHK"}
 			ruleErrChk(ctl, g, "errctl.GoodWrite", "w")
 			ruleErrChk(ctl, g, "errctl.GoodWithDefer", "w")
+			ruleErrChk(ctl, g, "errctl.GoodStickyWriter", "w")
 			out[0].Findings = append(out[0].Findings, g.Findings...)
 			d := ruleDomain(ctl, "errctl.BadDomain", "weights", "n")
 			d2 := ruleDomain(ctl, "errctl.GoodDomain", "weights", "n")
@@ -472,4 +589,103 @@ func init() {
 			return append(out, d)
 		},
 	})
+}
+
+type stickyInfo struct {
+	errField string
+	ok       bool
+	why      string
+}
+
+// analyseSticky inspects (*T).Write of a wrapper type holding the sink in field wfield: it must
+// forward to that field's Write and store the error into a field only when no error is recorded yet.
+func analyseSticky(c *Ctx, ptrT types.Type, wfield string) stickyInfo {
+	ms := c.Prog.MethodSets.MethodSet(ptrT)
+	var w *ssa.Function
+	for i := 0; i < ms.Len(); i++ {
+		if ms.At(i).Obj().Name() == "Write" {
+			w = c.Prog.MethodValue(ms.At(i))
+		}
+	}
+	if w == nil || w.Blocks == nil || !c.inModule(w) {
+		return stickyInfo{why: "it has no Write method in the module"}
+	}
+	recv := w.Params[0]
+	fieldName := func(fa *ssa.FieldAddr) string {
+		return fa.X.Type().Underlying().(*types.Pointer).Elem().Underlying().(*types.Struct).Field(fa.Field).Name()
+	}
+	info := stickyInfo{}
+	for _, b := range w.Blocks {
+		for _, in := range b.Instrs {
+			call, ok := in.(*ssa.Call)
+			if !ok || !call.Call.IsInvoke() || call.Call.Method.Name() != "Write" {
+				continue
+			}
+			ld, ok := call.Call.Value.(*ssa.UnOp)
+			if !ok {
+				continue
+			}
+			fa, ok := ld.X.(*ssa.FieldAddr)
+			if !ok || fa.X != ssa.Value(recv) || fieldName(fa) != wfield {
+				continue
+			}
+			E, has, _ := errorResult(call)
+			if !has || E == nil {
+				return stickyInfo{why: "its Write drops the error of the underlying Write"}
+			}
+			// where is E stored?
+			for _, ref := range *E.Referrers() {
+				st, ok := ref.(*ssa.Store)
+				if !ok {
+					continue
+				}
+				efa, ok := st.Addr.(*ssa.FieldAddr)
+				if !ok || efa.X != ssa.Value(recv) {
+					continue
+				}
+				info.errField = fieldName(efa)
+				// sticky: the store (and hence the overwrite) happens only while the field is still nil
+				guarded := false
+				for x := st.Block(); x != nil; x = x.Idom() {
+					if len(x.Preds) != 1 {
+						continue
+					}
+					p := x.Preds[0]
+					iff, isIf := p.Instrs[len(p.Instrs)-1].(*ssa.If)
+					if !isIf {
+						continue
+					}
+					bo, isBo := iff.Cond.(*ssa.BinOp)
+					if !isBo {
+						continue
+					}
+					onTrue := p.Succs[0] == x
+					var other ssa.Value
+					if isNilConst(bo.Y) {
+						other = bo.X
+					} else if isNilConst(bo.X) {
+						other = bo.Y
+					}
+					if other == nil {
+						continue
+					}
+					if l2, ok := other.(*ssa.UnOp); ok {
+						if f2, ok := l2.X.(*ssa.FieldAddr); ok && f2.X == ssa.Value(recv) && fieldName(f2) == info.errField {
+							if (bo.Op == token.EQL && onTrue) || (bo.Op == token.NEQ && !onTrue) {
+								guarded = true
+							}
+						}
+					}
+				}
+				info.ok = guarded
+				if !guarded {
+					info.why = "overwrites the recorded error with the result of every later write"
+				}
+			}
+		}
+	}
+	if info.errField == "" && info.why == "" {
+		info.why = "its Write does not record the underlying error in a field"
+	}
+	return info
 }
